@@ -97,7 +97,7 @@ pub fn gen_flat_doc(rng: &mut Rng, size: usize, hermes: bool) -> Value {
     if rng.chance(1, 3) { d["debugId"] = json!([rng.pick(UUIDS)]); }
     if rng.chance(1, 3) {
         let n = if rng.chance(3, 4) { nsrc } else { rng.below(5) };
-        d["contents"] = json!([(0..n).map(|_| if rng.chance(1, 3) { json!([]) } else { json!([rng.pick(NAME_POOL)]) }).collect::<Vec<_>>()]);
+        d["contents"] = json!([(0..n).map(|_| if rng.chance(1, 3) { json!([]) } else if rng.chance(1, 6) { json!([gen_content(rng)]) } else { json!([rng.pick(NAME_POOL)]) }).collect::<Vec<_>>()]);
     }
     if rng.chance(1, 4) && nsrc > 0 {
         d["ignore"] = json!([(0..rng.below(3)).map(|_| rng.below(nsrc)).collect::<Vec<_>>()]);
